@@ -26,6 +26,7 @@ type Env struct {
 	pkgPath string
 	loop    *loopInfo
 	qn      *int
+	bound   map[string]bool // quantifier-bound names (shadow program variables)
 }
 
 func (e *Env) with(st *State) *Env {
@@ -41,6 +42,11 @@ func (e *Env) bind(name string, v cval) *Env {
 		n.vars[k] = x
 	}
 	n.vars[name] = v
+	n.bound = make(map[string]bool, len(e.bound)+1)
+	for k := range e.bound {
+		n.bound[k] = true
+	}
+	n.bound[name] = true
 	return &n
 }
 
@@ -124,6 +130,9 @@ func (e *Env) Bool(x Expr) (T, error) {
 }
 
 func (e *Env) lookupIdent(name string) (cval, bool, error) {
+	if e.bound[name] {
+		return e.vars[name], true, nil
+	}
 	if e.fr != nil && e.loop != nil {
 		if v, ok := e.fr.lookupCurrent(name, e.st, e.loop); ok {
 			return v, true, nil
@@ -250,9 +259,8 @@ func (e *Env) eval(x Expr) (cval, error) {
 		case *types.Map:
 			// in contracts m[k] is the stored value and is meaningful only under
 			// `k in m` (no zero-value default: keeps quantified terms small)
-			ks, vs := c.R.SortOf(u.Key()), c.R.SortOf(u.Elem())
-			c.R.MDomHeap(ks)
-			vh := c.R.MValHeap(ks, vs)
+			c.R.MDomHeapT(u)
+			vh := c.R.MValHeapT(u)
 			return cval{t: Select(Select(c.getHeap(e.st, vh), b.t), i.t), typ: u.Elem()}, nil
 		case *types.Slice:
 			return cval{t: c.load(e.st, Elem(b.t, i.t), u.Elem()), typ: u.Elem()}, nil
@@ -570,6 +578,32 @@ func (e *Env) evalCall(n *ECall) (cval, error) {
 		}
 		c.R.Heap(HAlloc, ArraySort("Ref", "Bool"))
 		return cval{t: And(Not(Eq(r, Nil)), Not(Select(c.getHeap(e.old, HAlloc), c.rroot(r))), Select(c.getHeap(e.st, HAlloc), c.rroot(r))), typ: boolT}, nil
+	case "ptrof":
+		// the pointer boxed in an interface value (models are pointers to structs)
+		if err := need(1); err != nil {
+			return cval{}, err
+		}
+		v, err := e.eval(n.Args[0])
+		if err != nil {
+			return cval{}, err
+		}
+		if v.t.Sort != "Iface" {
+			return cval{}, fmt.Errorf("ptrof() of %s", v.t.Sort)
+		}
+		return cval{t: Ite(IsNilIface(v.t), Nil, c.R.Unbox(IBox(v.t), "Ref")), typ: types.Typ[types.UnsafePointer]}, nil
+	case "sametype":
+		if err := need(2); err != nil {
+			return cval{}, err
+		}
+		a, err := e.eval(n.Args[0])
+		if err != nil {
+			return cval{}, err
+		}
+		b, err := e.eval(n.Args[1])
+		if err != nil {
+			return cval{}, err
+		}
+		return cval{t: And(Eq(IsNilIface(a.t), IsNilIface(b.t)), Implies(Not(IsNilIface(a.t)), Eq(ITyp(a.t), ITyp(b.t)))), typ: boolT}, nil
 	case "allocated":
 		if err := need(1); err != nil {
 			return cval{}, err
@@ -577,6 +611,9 @@ func (e *Env) evalCall(n *ECall) (cval, error) {
 		v, err := e.eval(n.Args[0])
 		if err != nil {
 			return cval{}, err
+		}
+		if v.t.Sort == "Slice" {
+			return cval{t: c.allocated(e.st, SArr(v.t)), typ: boolT}, nil
 		}
 		return cval{t: c.allocated(e.st, v.t), typ: boolT}, nil
 	case "wheld", "rheld":
@@ -898,6 +935,17 @@ func domDepth(b *ssa.BasicBlock) int {
 // lookupCurrent returns the value a source variable holds at the head of
 // loop li: the head's phi for it, else the closest dominating reference.
 func (fr *frame) lookupCurrent(name string, st *State, li *loopInfo) (cval, bool) {
+	// address-taken (heap) variables: their current content
+	for _, b := range fr.fn.Blocks {
+		for _, in := range b.Instrs {
+			if a, ok := in.(*ssa.Alloc); ok && a.Comment == name {
+				if v, ok := fr.vals[a]; ok {
+					et := deref(a.Type())
+					return cval{t: fr.c.load(st, v, et), typ: et}, true
+				}
+			}
+		}
+	}
 	for _, in := range li.head.Instrs {
 		phi, ok := in.(*ssa.Phi)
 		if !ok {
